@@ -110,7 +110,7 @@ int main(int argc, char **argv)
         }
         else return 2;
         na = g_allocs - before;
-        alarm(0);
+        alarm(20); // the observation below walks the same structures: keep the watchdog armed
         // observation
         JW w; w.s = lines[li]; w.s.pop_back(); w.first = false;
         w.kv("r", r); w.kv("na", na); w.kv("cap", opn2_reserveBanks(dev, 0));
@@ -157,6 +157,7 @@ int main(int argc, char **argv)
             }
         }
         w.end_arr();
+        alarm(0);
         w.s += "}\n";
         fputs(w.s.c_str(), g_trace);
     }
